@@ -164,6 +164,11 @@ func randAtom(r *Rng) string {
 	case 0, 1, 2, 3:
 		return nastyAtoms[r.Intn(len(nastyAtoms))]
 	case 4:
+		if r.Chance(35) {
+			// longer than the 255 byte limit and made of a dot, blanks and an "extension" that is a dot (or a
+			// short one): what is left after cutting and trimming may be "." or ".."
+			return "." + strings.Repeat(" ", r.Pick(252, 253, 254, 255, 256, 300)) + r.Pick2(".", ".", "..", ".a", " .")
+		}
 		return longName(r)
 	case 5: // random bytes from a small alphabet
 		al := []byte{'.', '.', '/', ' ', 'a', 0xff, 0xc2, 0xa0, 0xe2, 0x80, 0x80, '\t', '_'}
